@@ -147,8 +147,9 @@ fn frames() -> Vec<Frame> {
     out
 }
 
-/// Sizes a reply is bulked up to: beyond one, four, eight and eighteen receive-buffer steps.
-const BULK_SIZES: [usize; 4] = [300, 1100, 2100, 4700];
+/// Sizes a reply is bulked up to: beyond one, four, eight and eighteen receive-buffer steps (and 1:
+/// the addition itself is a single character, the reply stays small).
+const BULK_SIZES: [usize; 5] = [1, 300, 1100, 2100, 4700];
 const BULK_KINDS: [&str; 4] = ["whitespace after the opening brace", "an unknown member in front", "an unknown member at the end", "a long string inside the parameters"];
 
 /// The same reply made longer without changing what it says: `kind` as in BULK_KINDS.  `None` when
@@ -213,6 +214,60 @@ fn all_frames() -> (Vec<Frame>, usize) {
     (out, n)
 }
 
+/// What the statement says about an error reply, worked out from the reply's JSON value alone -
+/// not with the library's own decoders, which are what is being checked.  `Unclear` where the
+/// statement leaves room (ill-formed or surplus parameters): there the older, weaker rule applies.
+enum Structural {
+    Standard(String),
+    Method(String),
+    Unclear,
+}
+
+fn structural(text: &str, declared: &[&str]) -> Structural {
+    let Ok(v) = serde_json::from_str::<Value>(text) else { return Structural::Unclear };
+    let Some(name) = v.get("error").and_then(|e| e.as_str()) else { return Structural::Unclear };
+    let params = v.get("parameters");
+    let empty = match params {
+        None | Some(Value::Null) => true,
+        Some(Value::Object(m)) => m.is_empty(),
+        _ => false,
+    };
+    let only_string = |field: &str| -> Option<String> {
+        let m = params?.as_object()?;
+        if m.len() != 1 {
+            return None;
+        }
+        m.get(field)?.as_str().map(|s| s.to_string())
+    };
+    if let Some(short) = name.strip_prefix("org.varlink.service.") {
+        let field = match short {
+            "InterfaceNotFound" => "interface",
+            "MethodNotFound" | "MethodNotImplemented" => "method",
+            "InvalidParameter" => "parameter",
+            "PermissionDenied" | "ExpectedMore" => return if empty { Structural::Standard(short.to_string()) } else { Structural::Unclear },
+            _ => return Structural::Unclear,
+        };
+        return match only_string(field) {
+            Some(s) => Structural::Standard(format!("{short} {{ {field}: {s:?} }}")),
+            None => Structural::Unclear,
+        };
+    }
+    if !declared.contains(&name) {
+        return Structural::Unclear;
+    }
+    match name {
+        "a.Unit" if empty => Structural::Method("Unit".into()),
+        "a.St" => {
+            let Some(m) = params.and_then(|p| p.as_object()) else { return Structural::Unclear };
+            match (m.len(), m.get("n").and_then(|n| n.as_u64()).filter(|n| *n <= 255), m.get("s").and_then(|s| s.as_str())) {
+                (2, Some(n), Some(s)) => Structural::Method(format!("St {{ n: {n}, s: {s:?} }}")),
+                _ => Structural::Unclear,
+            }
+        }
+        _ => Structural::Unclear,
+    }
+}
+
 #[derive(Debug, PartialEq)]
 enum Got {
     Success(String),
@@ -262,7 +317,20 @@ macro_rules! run_one {
             match &got {
                 Got::Success(s) => Err(("classify:error-reply-reported-as-success", format!("reported Ok(Ok({s}))"))),
                 _ => {
-                    if let Some(se) = &std_err {
+                    let st = structural(&f.text, declared);
+                    if let Structural::Standard(d) = &st {
+                        if got == Got::ServiceErr(d.clone()) {
+                            Ok(())
+                        } else {
+                            Err(("classify:standard-error-not-reported-as-service-error", format!("expected Err(VarlinkService({d})), got {got:?}")))
+                        }
+                    } else if let Structural::Method(d) = &st {
+                        if got == Got::MethodErr(d.clone()) {
+                            Ok(())
+                        } else {
+                            Err(("classify:declared-error-not-reported-as-method-error", format!("expected Ok(Err({d})), got {got:?}")))
+                        }
+                    } else if let Some(se) = &std_err {
                         if got == Got::ServiceErr(format!("{se:?}")) {
                             Ok(())
                         } else {
@@ -362,9 +430,9 @@ fn one(fr: &[Frame], i: u64, sink: &mut Sink<'_>) {
 pub fn run(tier: Tier) -> i32 {
     let mut rep = Report::new("C04", tier.name());
     let (fr, nbase) = all_frames();
-    rep.rule = format!("complete product: {} reply frames ({nbase} base frames + each bulked up to 300/1100/2100/4700 bytes in up to four meaning-preserving ways: whitespace, an unknown member in front / at the end, a long string parameter; + each with its member names spelled with JSON escapes; base frames: success / declared unit and struct errors with right, wrong-typed, missing, extra, absent parameters / undeclared errors / the six org.varlink.service errors with and without their parameters / error replies whose parameters fit the expected success type; x continues absent|true|false x every member order) x 5 expected parameter types x 3 error types (derived, derived with lifetime, empty enum) x {{receive_reply, call_method, receive_reply as the second frame of one arrival, receive_reply right after a reply with continues:true}}. Distinct = distinct (frame, types, classification)", fr.len());
+    rep.rule = format!("complete product: {} reply frames ({nbase} base frames + each extended by one character or bulked up to 300/1100/2100/4700 bytes in up to four meaning-preserving ways: whitespace, an unknown member in front / at the end, a long string parameter; + each with its member names spelled with JSON escapes; base frames: success / declared unit and struct errors with right, wrong-typed, missing, extra, absent parameters / undeclared errors / the six org.varlink.service errors with and without their parameters / error replies whose parameters fit the expected success type; x continues absent|true|false x every member order) x 5 expected parameter types x 3 error types (derived, derived with lifetime, empty enum) x {{receive_reply, call_method, receive_reply as the second frame of one arrival, receive_reply right after a reply with continues:true}}. Distinct = distinct (frame, types, classification)", fr.len());
     rep.assumptions = vec![
-        "an error type `recognises` a reply iff the reply's error name is one of its declared variants and serde_json decodes the frame as that type".into(),
+        "an error type recognises a reply whose error name is one of its declared variants and whose parameters are exactly the variant's fields with values of the right types (none for a field-less variant: absent, null or {}); likewise for the six standard errors. This is decided from the reply's JSON value, not with the library's decoders; members of the reply other than error and parameters (continues, unknown ones) do not matter. Where the parameters are ill-formed or have surplus members the statement leaves room: there a reply counts as recognised iff serde_json decodes the frame as the error type".into(),
         "a standard error is one whose name is in org.varlink.service and which decodes as varlink_service::Error; ill-formed ones must simply not be a success".into(),
     ];
     rep.require_goal("reply-with-error-member");
